@@ -12,13 +12,20 @@ def _one(task):
         import fam.allcases  # noqa: F401
         from fam import CASES
         from elab.equiv import comb_check
+        from elab.constmode import const_inputs
         c = CASES[kind]
         pyrtl.reset_working_block()
+        cm = params.get('_const') if isinstance(params, dict) else None
         try:
-            built = c.build(params)
+            with const_inputs(cm) as consts:
+                built = c.build(params)
         except Exception as e:
+            if cm:      # not every builder accepts a constant in every position: no verdict
+                return dict(task=task, status='skip', why='const twin not buildable: %s' % type(e).__name__)
             return dict(task=task, status='raised', why='%s: %s' % (type(e).__name__, str(e)[:300]))
         block = pyrtl.working_block()
+        if cm and not consts:
+            return dict(task=task, status='skip', why='const twin identical to the plain case')
         lenprob = None
         if c.lens is not None and isinstance(built, dict):
             exp = c.lens(params)
@@ -30,8 +37,21 @@ def _one(task):
             return dict(task=task, status='shape', lenprob=lenprob, nets=len(block.logic),
                         wall=time.time() - t0)
         W = c.W(params) if callable(c.W) else (c.W or 64)
-        status, cex, dt, names = comb_check(block, c.spec, params, W, pre_fn=c.pre,
+        spec, pre = c.spec, c.pre
+        if cm:
+            import z3
+            from elab.equiv import SV
+
+            def _with(fn):
+                if fn is None:
+                    return None
+                return lambda o, p, ins: fn(o, p, dict(ins, **{n: SV.lift(z3.BitVecVal(v, bw), W)
+                                                               for n, (v, bw) in consts.items()}))
+            spec, pre = _with(c.spec), _with(c.pre)
+        status, cex, dt, names = comb_check(block, spec, params, W, pre_fn=pre,
                                             timeout_ms=opts.get('timeout_ms', 60000))
+        if cm and status == 'refuted':
+            cex['consts'] = {n: v for n, (v, bw) in consts.items()}
         return dict(task=task, status=status, cex=cex, solver_s=dt, outputs=names, lenprob=lenprob,
                     nets=len(block.logic), wall=time.time() - t0)
     except Exception:
@@ -45,7 +65,9 @@ def len_replay(kind, params):
     from fam import CASES
     c = CASES[kind]
     pyrtl.reset_working_block()
-    built = c.build(params)
+    from elab.constmode import const_inputs
+    with const_inputs(params.get('_const')):
+        built = c.build(params)
     exp = c.lens(params)
     bad = {k: built.get(k) for k, v in exp.items() if built.get(k) != v}
     return dict(failed=bool(bad), observed=bad, expected={k: exp[k] for k in bad})
@@ -56,6 +78,13 @@ def run_comb_family(ctx, famname, cases, function, text, opts=None):
     if getattr(ctx, 'only', None):
         cases = [c for c in cases if ctx.only in famname or ctx.only in c[0]]
     tasks = [(k, p, opts) for (k, p) in cases]
+    every = opts.get('const_twins')
+    if every:
+        # constant-operand twins of every `every`-th case (one operand position, or all of them)
+        for i, (k, p) in enumerate(cases):
+            if i % every == 0 and isinstance(p, dict) and '_const' not in p:
+                which = ['all', 0, 1, 2][(i // every) % 4]
+                tasks.append((k, dict(p, _const=dict(which=which, seed=i + getattr(ctx, 'seed', 0))), opts))
     results = pmap(_one, tasks)
     solver_s = 0.0
     nq = 0
